@@ -140,3 +140,187 @@ Print Assumptions c11_ser_ok_full.
 Print Assumptions c11_example_fin_parses.
 Print Assumptions c11_example_fin_ok.
 Print Assumptions c11_example_fin_serialises.
+
+(* ================================================================================================
+   The connection-level clause: "every datagram the library emits carries version 1 and the
+   connection id owed to that direction, and is well-formed".
+   Conn/C11_Pred.v: c11_packet_ok / c11_emitted_ok (boolean, evaluated on implementation traces);
+   Conn/C11_Proofs.v: the invariant J and its preservation by every function of the poll.
+   Hypothesis c11_config_ok: the three configuration fields that become header fields (the initial
+   sequence number, the remote sequence number and the remote connection id) are u16 values — in the
+   Rust code they have type u16 (SeqNr); vconfig_ok (C10) implies it.  Nothing is assumed about the
+   messages delivered, the transport's answers or the congestion controller. *)
+From Utp Require Import Rtt.Rtte Mtu.SegSizes Rx.Rx Tx.Ring Tx.Segments Conn.Recovery Conn.Msg Conn.VSockRec
+  Conn.VSock Conn.VSockRun Conn.VObs Conn.VSock_Lemmas Conn.C11_Pred Conn.C11_Proofs.
+
+(* the invariant: holds of every new connection ... *)
+Theorem c11_inv_initial : forall (CC : Type) (cci : cc_iface CC) (cfg : vconfig),
+  c11_config_ok cfg = true ->
+  forall (mk : Z -> Z -> CC) (s0 : vsock CC), vsock_new cci mk cfg = Some s0 -> J cfg s0.
+Proof. exact @vsock_new_J. Qed.
+
+(* ... is kept by every event, and every step from a state satisfying it emits only well-formed datagrams *)
+Theorem c11_emitted_ok_every_step : forall (CC : Type) (cci : cc_iface CC) (cfg : vconfig),
+  c11_config_ok cfg = true ->
+  forall (s : vsock CC) (o : vop),
+  J cfg s -> J cfg (vstep_state cci s o) /\ c11_emitted_ok cfg (VSock_Lemmas.fstep_of cci s o) = true.
+Proof. exact @c11_emitted_ok_step. Qed.
+
+Theorem c11_emitted_ok_every_trace : forall (CC : Type) (cci : cc_iface CC) (cfg : vconfig),
+  c11_config_ok cfg = true ->
+  forall (mk : Z -> Z -> CC) (s0 : vsock CC) (ops : list vop),
+  vsock_new cci mk cfg = Some s0 -> forallb (c11_emitted_ok cfg) (ftrace cci s0 ops) = true.
+Proof. exact @c11_emitted_ok_trace. Qed.
+
+(* a connection itself emits only ST_DATA, ST_FIN, ST_STATE (ST_SYN / ST_RESET are the dispatcher's) *)
+Theorem c11_conn_types_ok_every_step : forall (CC : Type) (cci : cc_iface CC) (cfg : vconfig),
+  c11_config_ok cfg = true ->
+  forall (s : vsock CC) (o : vop),
+  J cfg s -> c11_conn_types_ok cfg (VSock_Lemmas.fstep_of cci s o) = true.
+Proof. exact @c11_conn_types_ok_step. Qed.
+
+Theorem c11_conn_types_ok_every_trace : forall (CC : Type) (cci : cc_iface CC) (cfg : vconfig),
+  c11_config_ok cfg = true ->
+  forall (mk : Z -> Z -> CC) (s0 : vsock CC) (ops : list vop),
+  vsock_new cci mk cfg = Some s0 -> forallb (c11_conn_types_ok cfg) (ftrace cci s0 ops) = true.
+Proof. exact @c11_conn_types_ok_trace. Qed.
+
+(* function-level: one poll, whatever it returns (Pending, Ready, error, panic) *)
+Theorem c11_poll_keeps_inv : forall (CC : Type) (cci : cc_iface CC) (cfg : vconfig),
+  u16 (conn_id_send_of cfg) ->
+  forall (s s' : vsock CC) (r : poll_result),
+  poll cci s = (s', r) -> J cfg (poll_init s) -> J cfg s'.
+Proof. exact @poll_J. Qed.
+
+(* what the predicate says about one datagram, in wire terms: `serialize` writes it with version nibble 1
+   and the type nibble of its type, and `deserialize` of those bytes followed by any payload returns the
+   very header the connection built and the boundary right behind it (so c11_roundtrip applies) *)
+Theorem c11_packet_ok_on_the_wire : forall (cfg : vconfig) (q : fpacket) (buflen : Z) (payload : list Z),
+  c11_packet_ok cfg q = true ->
+  ser_len (hdr_of_chdr (fq_hdr q)) <= buflen -> bytes_okb payload = true ->
+  exists bs, serialize (hdr_of_chdr (fq_hdr q)) buflen = Some bs /\
+             Zlength bs = ser_len (hdr_of_chdr (fq_hdr q)) /\
+             nth 0 bs 0 mod 16 = 1 /\
+             nth 0 bs 0 / 16 = type_to_number (ch_type (fq_hdr q)) /\
+             deserialize (bs ++ payload) = Some (hdr_of_chdr (fq_hdr q), ser_len (hdr_of_chdr (fq_hdr q))).
+Proof. exact packet_ok_on_the_wire. Qed.
+
+Theorem c11_packet_ok_payload_rule : forall (cfg : vconfig) (q : fpacket),
+  c11_packet_ok cfg q = true -> 0 <= fq_plen q /\ (0 < fq_plen q <-> ch_type (fq_hdr q) = ST_DATA).
+Proof. exact packet_ok_payload_rule. Qed.
+
+Theorem c11_packet_ok_conn_id : forall (cfg : vconfig) (q : fpacket),
+  c11_packet_ok cfg q = true -> ch_conn_id (fq_hdr q) = expected_conn_id cfg (ch_type (fq_hdr q)).
+Proof. exact packet_ok_conn_id. Qed.
+
+(* non-vacuity: a reachable trace with an ST_DATA, an ST_STATE carrying a SACK and an ST_FIN, all accepted;
+   and packets the predicate rejects *)
+Theorem c11_emitted_ok_nonvacuous :
+  c11_config_ok ex_cfg = true /\
+  forallb (c11_emitted_ok ex_cfg) ex_trace = true /\
+  emits_kind (fun q => ptype_eqb (ch_type (fq_hdr q)) ST_DATA && (fq_plen q =? 100) &&
+                       (ch_conn_id (fq_hdr q) =? 2066)) ex_trace = true /\
+  emits_kind (fun q => ptype_eqb (ch_type (fq_hdr q)) ST_STATE &&
+                       match ch_sack (fq_hdr q) with Some _ => true | None => false end) ex_trace = true /\
+  emits_kind (fun q => ptype_eqb (ch_type (fq_hdr q)) ST_FIN) ex_trace = true.
+Proof. exact c11_emitted_nonvacuous. Qed.
+
+Theorem c11_packet_ok_discriminates :
+  c11_packet_ok ex_cfg (ex_pkt ST_STATE 2066 101 None 0) = true /\
+  c11_packet_ok ex_cfg (ex_pkt ST_STATE 2065 101 None 0) = false /\
+  c11_packet_ok ex_cfg (ex_pkt ST_SYN 2065 101 None 0) = true /\
+  c11_packet_ok ex_cfg (ex_pkt ST_SYN 2066 101 None 0) = false /\
+  c11_packet_ok ex_cfg (ex_pkt ST_DATA 2066 101 None 0) = false /\
+  c11_packet_ok ex_cfg (ex_pkt ST_STATE 2066 101 None 3) = false /\
+  c11_packet_ok ex_cfg (ex_pkt ST_FIN 2066 65536 None 0) = false /\
+  c11_packet_ok ex_cfg (ex_pkt ST_STATE 2066 101 (Some {| sk_bits := repeat false 64; sk_len := 64 |}) 0) = true /\
+  c11_packet_ok ex_cfg (ex_pkt ST_STATE 2066 101 (Some {| sk_bits := repeat false 64; sk_len := 32 |}) 0) = false.
+Proof. exact c11_packet_ok_rejects. Qed.
+
+Print Assumptions c11_inv_initial.
+Print Assumptions c11_emitted_ok_every_step.
+Print Assumptions c11_emitted_ok_every_trace.
+Print Assumptions c11_conn_types_ok_every_step.
+Print Assumptions c11_conn_types_ok_every_trace.
+Print Assumptions c11_poll_keeps_inv.
+Print Assumptions c11_packet_ok_on_the_wire.
+Print Assumptions c11_packet_ok_payload_rule.
+Print Assumptions c11_packet_ok_conn_id.
+Print Assumptions c11_emitted_ok_nonvacuous.
+Print Assumptions c11_packet_ok_discriminates.
+
+(* ================================================================================================
+   The same clause at the socket-dispatcher tier (Sock/Dispatcher.v): the datagrams the dispatcher itself
+   emits — the ST_SYN of a connect() and the ST_RESET answering a SYN that can be neither served nor queued.
+   Sock/DispC11_Pred.v: syn_header / rst_header (the UtpHeader literals of socket.rs), c11_devent_ok,
+   c11_dstep_ok; Sock/DispC11_Proofs.v: invariant DI (next_connection_id, the pending random_u16 values, the
+   cached SYNs are u16).  Hypotheses: what the environment feeds is u16 (random_u16 values; connection id /
+   seq_nr / ack_nr of parsed datagrams, cf. c11_parsed_in_range). *)
+From Utp Require Import Sock.Dispatcher Sock.DispC11_Pred Sock.DispC11_Proofs.
+
+Theorem c11_disp_inv_initial : forall (max_streams : Z) (random : list Z),
+  randoms_okb random = true -> DI (dstate_new max_streams random).
+Proof. exact new_DI. Qed.
+
+Theorem c11_disp_emitted_ok_every_step : forall (s : dstate) (o : dop) (s' : dstate) (e : list devent),
+  dstep s o = (s', e) -> DI s -> dop_okb o = true -> DI s' /\ c11_dstep_ok e = true.
+Proof. exact dstep_DI. Qed.
+
+(* every op list = every interleaving of connects, accepts, drops and datagrams *)
+Theorem c11_disp_emitted_ok_every_trace : forall (max_streams : Z) (random : list Z) (ops : list dop),
+  randoms_okb random = true -> forallb dop_okb ops = true ->
+  forallb (fun p => c11_dstep_ok (fst p)) (dtrace (dstate_new max_streams random) ops) = true.
+Proof. exact dispatcher_emitted_ok. Qed.
+
+(* an accepted event is 20 bytes with version 1 and type nibble ST_SYN = 4 / ST_RESET = 3 that the peer's
+   parser reads back unchanged, whatever the (u32) timestamp *)
+Theorem c11_disp_syn_on_the_wire : forall (a conn seq ts buflen : Z),
+  c11_devent_ok (EvSentSyn a conn seq) = true -> 0 <= ts < 4294967296 -> 20 <= buflen ->
+  exists bs, serialize (syn_header conn seq ts) buflen = Some bs /\ Zlength bs = 20 /\
+             nth 0 bs 0 mod 16 = 1 /\ nth 0 bs 0 / 16 = 4 /\
+             deserialize bs = Some (syn_header conn seq ts, 20).
+Proof. exact syn_event_on_the_wire. Qed.
+
+Theorem c11_disp_rst_on_the_wire : forall (a conn ack buflen : Z),
+  c11_devent_ok (EvSentRst a conn ack) = true -> 20 <= buflen ->
+  exists bs, serialize (rst_header conn ack) buflen = Some bs /\ Zlength bs = 20 /\
+             nth 0 bs 0 mod 16 = 1 /\ nth 0 bs 0 / 16 = 3 /\
+             deserialize bs = Some (rst_header conn ack, 20).
+Proof. exact rst_event_on_the_wire. Qed.
+
+(* the id owed to the direction, ST_RESET: it answers the SYN datagram handled in this very step, goes to
+   its address, carries its connection id (the id the refused initiator receives on) and acknowledges its
+   sequence number — every state, every step, no hypothesis *)
+Theorem c11_disp_rst_answers_the_syn : forall (s : dstate) (o : dop) (s' : dstate) (e : list devent) (a c k : Z),
+  dstep s o = (s', e) -> In (EvSentRst a c k) e ->
+  exists pushes m, o = DoRunOnce pushes (ArmRecv a (Some m)) /\ dm_type m = ST_SYN /\
+                   c = dm_conn m /\ k = dm_seq m.
+Proof. exact rst_event_facts. Qed.
+
+(* the id owed to the direction, ST_SYN: the id a SYN announces is the one the new connection should
+   RECEIVE on (BEP 29).  FALSE of the model as a statement about what happens next: a SYN-ACK is matched to
+   the pending connect by (address, ack_nr) only, the announced id is not kept, and a ST_STATE carrying
+   another connection id completes the connect under that other id.  (With a peer that echoes the id the
+   key is the announced id: c12 connected_event_facts / wiring_cross_keys.) *)
+Theorem c11_disp_syn_ack_conn_id_unchecked_refuted :
+  exists max_streams random ops a c q t k,
+    randoms_okb random = true /\ forallb dop_okb ops = true /\
+    all_events (dtrace (dstate_new max_streams random) ops) = [EvSentSyn a c q; EvConnected t k] /\
+    k_addr k = a /\ k_conn k <> c.
+Proof. exact syn_ack_conn_id_unchecked_refuted. Qed.
+
+(* non-vacuity: reachable SYN and RESET emissions under the hypotheses *)
+Theorem c11_disp_nonvacuous :
+  randoms_okb [100; 200] = true /\ forallb dop_okb (syn_id_ops ++ rst_ops) = true /\
+  all_events (dtrace (dstate_new 10 [100; 200]) rst_ops) = [EvSentRst 9 1032 532] /\
+  forallb (fun p => c11_dstep_ok (fst p)) (dtrace (dstate_new 10 [100; 200]) (syn_id_ops ++ rst_ops)) = true.
+Proof. exact rst_nonvacuous. Qed.
+
+Print Assumptions c11_disp_inv_initial.
+Print Assumptions c11_disp_emitted_ok_every_step.
+Print Assumptions c11_disp_emitted_ok_every_trace.
+Print Assumptions c11_disp_syn_on_the_wire.
+Print Assumptions c11_disp_rst_on_the_wire.
+Print Assumptions c11_disp_rst_answers_the_syn.
+Print Assumptions c11_disp_syn_ack_conn_id_unchecked_refuted.
+Print Assumptions c11_disp_nonvacuous.
